@@ -21,7 +21,8 @@ EXPLANATION = (
     "dominance and def-use; asynchronous BaseException is routed from every node of the commit-point region "
     "through the enclosing try frames; every handler on the pre-commit path is classified re-raise / convert / "
     "swallow against a frozen allow-list."
-    ' Also: (R6) on the AmbiguousCommitError route no handler/finally deletes, and no handler along the chain converts or swallows the ambiguous error; (R7) the conditional pointer PUT is not retried.')
+    ' Also: (R6) on the AmbiguousCommitError route no handler/finally deletes, and no handler along the chain converts or swallows the ambiguous error; (R7) the conditional pointer PUT is not retried.'
+    ' (R8) who-may-delete census (shared with C09.R3).')
 NOT_DECIDED = ("the resulting table state after each fault; what S3 does with an errored PUT; double faults "
                "at run time")
 
